@@ -1,5 +1,5 @@
 """Path-based symbolic executor over the go/ssa dump."""
-import sys
+import sys, time
 import z3
 from .vals import *
 from .state import State, Unsupported, Ev
@@ -39,6 +39,7 @@ class Executor:
     unroll_limit = 24
     inline_depth = 5
     global_types = {}
+    deadline = None
 
     # ------------------------------------------------------------------ operands
     def operand(self, fr, st, o):
@@ -98,6 +99,8 @@ class Executor:
         while True:
             blk = blocks[fr.blk]
             instrs = blk["instrs"]
+            if self.deadline and time.time() > self.deadline:
+                raise Unsupported("time budget exceeded (path explosion) in " + fn["short"])
             if fr.ip == 0:
                 loops = ir.loops(fn)
                 if fr.blk in loops:
@@ -274,7 +277,7 @@ class Executor:
             i = to_int(self.operand(fr, st, A[1]))
             if isinstance(x, SliceV):
                 self.check_index(fr, st, i, x.len, ins)
-                env[ins["name"]] = st.seq_read(x.seq, i)
+                env[ins["name"]] = st.seq_read(x.seq, i, x.t)
                 return
             raise Unsupported("Index on %r" % type(x))
         if op == "Extract":
